@@ -1,9 +1,198 @@
-"""Engine K: run Kani harnesses (filled in with the Kani harness crate)."""
+"""Engine K: run Kani proof harnesses of /verif/kani against /repo's working tree and parse the results."""
+import json
+import os
+import re
+import resource
+import shutil
+import subprocess
+import time
+
+GUARD = "ndarray_interp_verif"
+
+
+def _env():
+    e = dict(os.environ)
+    e["CARGO_NET_OFFLINE"] = "true"
+    e["RUSTFLAGS"] = f"--cfg {GUARD}"
+    e.pop("RUSTUP_TOOLCHAIN", None)
+    return e
+
+
+def _limits():
+    # per-process address-space limit: a CBMC run that needs more is reported as inconclusive, not awaited
+    lim = int(os.environ.get("VERIF_KANI_MEM_GB", "24")) * (1 << 30)
+    resource.setrlimit(resource.RLIMIT_AS, (lim, lim))
 
 
 def setup(root, repo, log):
-    return 0
+    kdir = os.path.join(root, "kani")
+    shutil.copyfile(os.path.join(repo, "Cargo.lock"), os.path.join(kdir, "Cargo.lock"))
+    # compile the harness crate once (no harness selected that takes long)
+    p = subprocess.run(["cargo", "kani", "--harness", "c05_in_range_f32", "--output-format", "terse"], cwd=kdir, env=_env(), stdout=subprocess.PIPE, stderr=subprocess.STDOUT, text=True)
+    log(f"kani setup build: exit {p.returncode}")
+    return p.returncode
+
+
+def parse(text, wanted):
+    """per-harness results from `cargo kani -j N --output-format terse` output"""
+    thread_of = {}
+    res = {}
+    cur_thread = None
+    block = []
+    blocks = []
+    for line in text.splitlines():
+        m = re.match(r"Thread (\d+): Checking harness (\S+?)\.\.\.", line)
+        if m:
+            thread_of[m.group(1)] = m.group(2)
+            continue
+        m = re.match(r"Thread (\d+): ?$", line)
+        if m:
+            if cur_thread is not None:
+                blocks.append((cur_thread, block))
+            cur_thread, block = m.group(1), []
+            continue
+        m = re.match(r"Checking harness (\S+?)\.\.\.", line)
+        if m:  # sequential mode (-j 1)
+            if cur_thread is not None:
+                blocks.append((cur_thread, block))
+            thread_of["seq" + m.group(1)] = m.group(1)
+            cur_thread, block = "seq" + m.group(1), []
+            continue
+        if cur_thread is not None:
+            block.append(line)
+    if cur_thread is not None:
+        blocks.append((cur_thread, block))
+    # a thread runs several harnesses one after the other: pair blocks with the announcements in order
+    per_thread_names = {}
+    for line in text.splitlines():
+        m = re.match(r"Thread (\d+): Checking harness (\S+?)\.\.\.", line)
+        if m:
+            per_thread_names.setdefault(m.group(1), []).append(m.group(2))
+    per_thread_idx = {}
+    for th, body in blocks:
+        if th.startswith("seq"):
+            name = thread_of[th]
+        else:
+            i = per_thread_idx.get(th, 0)
+            names = per_thread_names.get(th, [])
+            if i >= len(names):
+                continue
+            name = names[i]
+            per_thread_idx[th] = i + 1
+        b = "\n".join(body)
+        r = {"harness": name.split("::")[-1]}
+        m = re.search(r"\*\* (\d+) of (\d+) failed", b)
+        if m:
+            r["failed"], r["checks"] = int(m.group(1)), int(m.group(2))
+        m = re.search(r"\*\* (\d+) of (\d+) cover properties satisfied", b)
+        if m:
+            r["covers_sat"], r["covers"] = int(m.group(1)), int(m.group(2))
+        m = re.search(r"Verification Time: ([\d.]+)s", b)
+        if m:
+            r["time_s"] = float(m.group(1))
+        if "VERIFICATION:- SUCCESSFUL" in b:
+            r["status"] = "SUCCESSFUL"
+        elif "VERIFICATION:- FAILED" in b:
+            r["status"] = "FAILED"
+            r["failed_checks"] = [l.strip() for l in body if l.strip().startswith("Failed Checks:")][:20]
+        else:
+            r["status"] = "UNKNOWN"
+        if "unwinding assertion" in b and r.get("status") == "FAILED":
+            r["unwinding_failure"] = True
+        res[r["harness"]] = r
+    for h in wanted:
+        res.setdefault(h, {"harness": h, "status": "MISSING"})
+    return res
+
+
+def playback(root, repo, harness, log):
+    """concrete playback of a failing harness: generate the unit test in a scratch copy and run it natively"""
+    scratch = f"/tmp/verif-kani-playback-{os.getpid()}"
+    try:
+        shutil.copytree(os.path.join(root, "kani"), scratch, ignore=shutil.ignore_patterns("target"))
+        e = _env()
+        p = subprocess.run(["cargo", "kani", "--harness", harness, "-Z", "concrete-playback", "--concrete-playback=inplace", "--output-format", "terse"], cwd=scratch, env=e, stdout=subprocess.PIPE, stderr=subprocess.STDOUT, text=True, timeout=3600)
+        src = open(os.path.join(scratch, "src", "lib.rs")).read()
+        tests = re.findall(r"#\[test\]\s*fn (kani_concrete_playback_\w+)\(\)\s*\{.*?\n    \}", src, re.S)
+        gen = re.findall(r"(#\[test\]\s*fn kani_concrete_playback_\w+\(\)\s*\{.*?\n    \})", src, re.S)
+        if not tests:
+            return None, p.stdout[-2000:]
+        out = {}
+        for profile in ([], ["--release"]):
+            q = subprocess.run(["cargo", "kani", "playback", "-Z", "concrete-playback"] + profile + ["--", tests[0]], cwd=scratch, env=e, stdout=subprocess.PIPE, stderr=subprocess.STDOUT, text=True, timeout=1800)
+            out["release" if profile else "dev"] = ("test result: FAILED" in q.stdout or "panicked" in q.stdout)
+        return out, "\n".join(gen)[:6000]
+    except Exception as ex:
+        log(f"playback failed: {ex}")
+        return None, str(ex)
+    finally:
+        shutil.rmtree(scratch, ignore_errors=True)
 
 
 def run(root, repo, pid, tier, groups, log):
-    return {}, 0
+    harnesses = list(groups.get(tier) or groups.get("quick") or [])
+    if not harnesses:
+        return {}, 0
+    kdir = os.path.join(root, "kani")
+    shutil.copyfile(os.path.join(repo, "Cargo.lock"), os.path.join(kdir, "Cargo.lock"))
+    limit = int(os.environ.get("VERIF_KANI_TIMEOUT", groups.get("timeout_s", {}).get(tier, 1500 if tier == "quick" else 6 * 3600)))
+    jobs = min(len(harnesses), int(os.environ.get("VERIF_THREADS", "16")))
+    cmd = ["cargo", "kani", "-j", str(jobs), "--output-format", "terse"]
+    if groups.get("stubbing"):
+        cmd += ["-Z", "stubbing"]
+    for h in harnesses:
+        cmd += ["--harness", h]
+    t0 = time.time()
+    os.makedirs(os.path.join(root, "work"), exist_ok=True)
+    logf = os.path.join(root, "work", f"{pid}.K.log")
+    status = 0
+    timed_out = False
+    with open(logf, "w") as fh:
+        try:
+            p = subprocess.Popen(cmd, cwd=kdir, env=_env(), stdout=fh, stderr=subprocess.STDOUT, preexec_fn=_limits, start_new_session=True)
+            p.wait(timeout=limit)
+        except subprocess.TimeoutExpired:
+            timed_out = True
+            try:
+                os.killpg(p.pid, 9)
+            except Exception:
+                p.kill()
+    text = open(logf, errors="replace").read()
+    res = parse(text, harnesses)
+    K = {"engine": "Kani 0.68.0 / CBMC 6.11.0 (cadical)", "harnesses": len(harnesses), "harnesses_ok": 0, "checks": 0, "checks_ok": 0, "samples": [], "findings": [], "inconclusive": [], "errors": [], "results": [], "wall_s": round(time.time() - t0, 1), "functions": groups.get("functions", []), "bounds": groups.get("bounds", {}).get(tier, []) if isinstance(groups.get("bounds"), dict) else groups.get("bounds", []), "assumptions": groups.get("assumptions", []), "replays": 0, "command": " ".join(cmd)}
+    if "error: could not compile" in text or "error[E" in text:
+        K["errors"].append("the Kani harness crate does not compile against /repo (API change?)")
+        log(text[-3000:])
+        return K, 2
+    for h in harnesses:
+        r = res[h]
+        K["results"].append(r)
+        K["checks"] += r.get("checks", 0)
+        st = r.get("status")
+        if st == "SUCCESSFUL" and r.get("covers_sat", 0) == r.get("covers", 0):
+            K["harnesses_ok"] += 1
+            K["checks_ok"] += r.get("checks", 0)
+            if len(K["samples"]) < 6:
+                K["samples"].append({"harness": h, "status": st, "cbmc_checks": r.get("checks"), "cover_properties": f"{r.get('covers_sat', 0)}/{r.get('covers', 0)}", "time_s": r.get("time_s")})
+        elif st == "SUCCESSFUL":
+            K["errors"].append(f"{h}: verified but {r.get('covers', 0) - r.get('covers_sat', 0)} cover properties unsatisfied (vacuous harness)")
+            status = max(status, 2)
+        elif st == "FAILED":
+            fc = " ".join(r.get("failed_checks", []))
+            only_nan = fc and all(("NaN on" in c) for c in r.get("failed_checks", []))
+            if r.get("unwinding_failure"):
+                K["errors"].append(f"{h}: unwinding assertion failed (bound too small) - inconclusive")
+                status = max(status, 2)
+            elif only_nan:
+                K["results"][-1]["note"] = "only CBMC NaN-propagation checks failed (not property violations)"
+                K["harnesses_ok"] += 1
+            else:
+                K["checks_ok"] += r.get("checks", 0) - r.get("failed", 0)
+                pb, gen = playback(root, repo, h, log)
+                K["replays"] += 1
+                reproduced = None if pb is None else (pb.get("dev") or pb.get("release"))
+                K["findings"].append({"key": f"{pid}:kani:{h}", "summary": f"Kani harness {h} failed: {fc[:300]}", "replay": {"harness": h, "failed_checks": r.get("failed_checks", []), "concrete_playback": pb, "generated_test": gen, "rerun": f"cd /verif/kani && cargo kani --harness {h}"}, "reproduced": reproduced})
+        else:
+            K["inconclusive"].append(f"{h}: no verdict ({'overall time limit' if timed_out else st})")
+            status = max(status, 2)
+    return K, status
